@@ -947,7 +947,7 @@ pub fn scenarios(prop: &str, tier: Tier) -> Vec<Item> {
     match prop {
         "C01" => {
             v.push(item(build_h1(H1P { name: "h1_1w1_1r1_all", writers: vec![1], readers: vec![1], nest_writer: false, stale: true }), None, "half-lock: 1 store vs 1 read, every interleaving"));
-            v.push(item(build_h1(H1P { name: "h1_1w1_2r1", writers: vec![1], readers: vec![1, 1], nest_writer: false, stale: true }), if q { Some(3) } else { None }, "half-lock: 1 store vs 2 readers"));
+            v.push(item(build_h1(H1P { name: "h1_1w1_2r1", writers: vec![1], readers: vec![1, 1], nest_writer: false, stale: true }), if q { Some(3) } else { Some(5) }, "half-lock: 1 store vs 2 readers"));
             v.push(item(build_h1(H1P { name: "h1_1w2_2r2_nested", writers: vec![2], readers: vec![2, 2], nest_writer: true, stale: true }), b(2, 3), "2 stores vs 2x2 reads + a read nested in the writer at every boundary"));
             v.push(item(build_h1(H1P { name: "h1_2w_2r", writers: vec![1, 1], readers: vec![1, 2], nest_writer: true, stale: true }), b(2, 3), "2 writers vs 2 readers + nested read"));
             // registry
@@ -981,12 +981,20 @@ pub fn scenarios(prop: &str, tier: Tier) -> Vec<Item> {
             p.nest = vec![S1];
             p.max_nest = 2;
             v.push(item(build_reg(p), b(2, 3), "register B, unregister A, register C vs 2 deliveries + nested arrivals"));
-            let mut p = rp("snapshot_two_signals", "C02");
+            let mut p = rp("snapshot_two_signals_small", "C02");
             p.pre = vec![Reg(S1, 1), Reg(S2, 5)];
-            p.mutators = vec![vec![Reg(S1, 2), Unreg(1)], vec![Reg(S2, 6), Unreg(5)]];
-            p.deliverers = vec![vec![S1, S2], vec![S2, S1]];
+            p.mutators = vec![vec![Unreg(1), Reg(S1, 2)], vec![Reg(S2, 6)]];
+            p.deliverers = vec![vec![S1, S2]];
             p.nest = vec![S1, S2];
-            v.push(item(build_reg(p), b(2, 3), "two mutators on two signals, deliveries of both from two threads"));
+            v.push(item(build_reg(p), b(2, 3), "two mutators on two signals, one delivery thread raising both, nested arrivals of both"));
+            if !q {
+                let mut p = rp("snapshot_two_signals", "C02");
+                p.pre = vec![Reg(S1, 1), Reg(S2, 5)];
+                p.mutators = vec![vec![Reg(S1, 2), Unreg(1)], vec![Reg(S2, 6), Unreg(5)]];
+                p.deliverers = vec![vec![S1, S2], vec![S2, S1]];
+                p.nest = vec![S1, S2];
+                v.push(item(build_reg(p), Some(2), "two mutators on two signals, deliveries of both from two threads"));
+            }
             let mut p = rp("snapshot_first_registration", "C02");
             p.mutators = vec![vec![Reg(S1, 1), Reg(S1, 2), UnregSig(S1), Reg(S1, 3)]];
             p.deliverers = vec![vec![S1, S1]];
@@ -1015,7 +1023,7 @@ pub fn scenarios(prop: &str, tier: Tier) -> Vec<Item> {
             v.push(item(build_reg(p), b(2, 3), "two first registrations contending for the fallback; deliveries of both signals"));
         }
         "C18" => {
-            v.push(item(build_h1(H1P { name: "live_h1_1w1_2r1_all", writers: vec![1], readers: vec![1, 1], nest_writer: false, stale: false }), if q { Some(3) } else { None }, "half-lock: writer must terminate against 2 readers"));
+            v.push(item(build_h1(H1P { name: "live_h1_1w1_2r1_all", writers: vec![1], readers: vec![1, 1], nest_writer: false, stale: false }), if q { Some(3) } else { Some(5) }, "half-lock: writer must terminate against 2 readers"));
             v.push(item(build_h1(H1P { name: "live_h1_2w2_2r2", writers: vec![2, 1], readers: vec![2, 1], nest_writer: true, stale: false }), b(1, 3), "2 writers, 2 readers re-entering between barrier checks, nested read"));
             let mut p = rp("live_mutators_and_panic", "C18");
             p.pre = vec![Reg(S1, 1)];
